@@ -833,6 +833,14 @@ fn gen_ctype(rng: &mut Rng, n: u64, emit: &mut dyn FnMut(Vec<String>)) {
         "text/plain;charset=utf-8",
         "TEXT/PLAIN; CHARSET=UTF-8",
         "application/octet-stream",
+        // the well-known media types, with parameters and suffixes (a writer that knows them must not lose the rest)
+        "application/octet-stream; charset=binary",
+        "application/octet-stream;a=b",
+        "APPLICATION/OCTET-STREAM; x=y",
+        "application/octet-stream+zip",
+        "application/xml; charset=utf-8",
+        "application/json; charset=utf-8",
+        "text/xml; charset=\"utf-8\"",
         "application/xml",
         "image/svg+xml",
         "multipart/form-data; boundary=----abc",
@@ -861,7 +869,7 @@ fn gen_ctype(rng: &mut Rng, n: u64, emit: &mut dyn FnMut(Vec<String>)) {
     ] {
         emit(vec!["ctype".into(), hx(t.as_bytes())]);
     }
-    let toks = ["text", "plain", "application", "json", "x-foo", "vnd.a+b", "A", "z9", "*", "a.b", "!#$%&'*+-.^_`|~"];
+    let toks = ["text", "plain", "application", "application", "octet-stream", "xml", "json", "x-foo", "vnd.a+b", "A", "z9", "*", "a.b", "!#$%&'*+-.^_`|~"];
     let vals = ["utf-8", "UTF-8", "1", "\"quoted\"", "\"a b\"", "\"a;b\"", "\"\"", "x.y", "\"a\\\\b\""];
     for _ in 0..n {
         let mut s = format!("{}/{}", rng.pick(&toks), rng.pick(&toks));
@@ -978,8 +986,12 @@ fn evaluate(f: &[&str]) -> Vec<String> {
             let s = String::from_utf8(unhx(f[1])).expect("utf8");
             match s.parse::<ContentType>() {
                 Err(_) => vec!["err".to_owned(), "-".to_owned()],
-                // what `try_into_header_value` writes is `as_ref()`; parse it again
-                Ok(m) => vec![show(&m), m.as_ref().parse::<ContentType>().map_or("err".to_owned(), |m2| show(&m2))],
+                // what `try_into_header_value` (the header writer of every output with a content type) really writes, parsed again
+                Ok(m) => {
+                    use s3s::verif_hooks::http::TryIntoHeaderValue;
+                    let written = m.clone().try_into_header_value().ok().and_then(|v| v.to_str().ok().map(str::to_owned));
+                    vec![show(&m), written.and_then(|t| t.parse::<ContentType>().ok()).map_or("err".to_owned(), |m2| show(&m2))]
+                }
             }
         }
         _ => vec!["badkind".to_owned()],
